@@ -13,7 +13,7 @@ from ..cfg import CFG, ENTRY, EXIT, RAISE
 from ..core import Ctx
 from ..flow import AV
 from ..model import AnalysisError, FuncInfo, canon, dotted, norm, walk_no_nested, body_stmts, kwarg
-from .common import conditions_at, enclosing, expand_locals, prog, quant_norm, resolve_local
+from .common import check_annotator_key, conditions_at, enclosing, expand_locals, prog, quant_norm, resolve_local
 
 RI_FIELDS = ("_annotations", "_categories", "bound_inf", "bound_sup")
 # named friend sites outside class Continuum that may write the representation, one reason each
@@ -168,6 +168,40 @@ def rule_unit_order(ctx: Ctx):
                       f"asymmetric and total on distinct units ({case_name(c)}): exactly one of a<b, b<a",
                       construct=f"trichotomy {case_name(c)}", key=f"trichotomy {case_name(c)}")
     ctx.notes["abstract_cases"] = {"Unit.__lt__": {"cases": len(table), "exhaustive": True}}
+    # the order just decided is the order of the unit sets only while they are built without a key function: SortedSet(key=k) sorts,
+    # bisects and deduplicates by k(unit), and Unit.__lt__ is out of the picture
+    n_sets = 0
+    for g in list(M.functions.values()):
+        if isinstance(g.node, ast.Lambda):
+            continue
+        for c in walk_no_nested(g.node):
+            if not (isinstance(c, ast.Call) and dotted(c.func) in ("SortedSet", "sortedcontainers.SortedSet", "SortedList", "SortedKeyList")):
+                continue
+            n_sets += 1
+            keyf = next((k.value for k in c.keywords if k.arg == "key"), c.args[1] if len(c.args) > 1 else None)
+            if keyf is None or (isinstance(keyf, ast.Constant) and keyf.value is None):
+                continue
+            body = None
+            if isinstance(keyf, ast.Lambda):
+                body, kp = keyf.body, [a.arg for a in keyf.args.args]
+            elif isinstance(keyf, ast.Name) and keyf.id in M.functions and not isinstance(M.functions[keyf.id].node, ast.Lambda):
+                kf = M.functions[keyf.id]
+                rs = [r for r in walk_no_nested(kf.node) if isinstance(r, ast.Return) and r.value is not None]
+                body, kp = (rs[0].value if len(rs) == 1 else None), kf.params
+            reads_unit = body is not None and any(isinstance(a, ast.Attribute) and a.attr in ("segment", "annotation") for a in ast.walk(body))
+            if body is not None and not reads_unit:
+                continue                      # a key over something that is not a Unit (annotator names, categories): not the unit order
+            conflate = [b for b in (ast.walk(body) if body is not None else []) if isinstance(b, ast.BoolOp) and isinstance(b.op, ast.Or) and
+                        any(isinstance(v, ast.Attribute) and v.attr == "annotation" for v in b.values) and any(isinstance(v, ast.Constant) for v in b.values)]
+            if conflate:
+                ctx.bad("R-C13-1", g, c, f"the unit set is ordered by a key function in which `{norm(conflate[0])}` gives the unlabelled unit and the unit labelled "
+                        f"{norm(next(v for v in conflate[0].values if isinstance(v, ast.Constant)))} the same rank: the documented order puts the unlabelled one first, "
+                        f"with this key the two keep their insertion order (and, with equal keys, count as duplicates of each other)", key="unit-set-key")
+            else:
+                ctx.undecided("R-C13-1", g, c, f"a sorted container of units is built with a key function (`{norm(keyf)}`): its order is the key's, not Unit.__lt__ "
+                              f"that this rule decided (not a verdict)", key="unit-set-key")
+    ctx.check(n_sets >= 1, "R-C13-1", f, None, f"{n_sets} sorted-container constructions in the package, none of a unit set with a key function: the sets are ordered by Unit.__lt__",
+              bad_detail="no SortedSet construction found in the package", construct="unit sets ordered by __lt__", key="unit-set-order")
 
 
 # ---------------------------------------------------------------------------------------------
@@ -243,6 +277,7 @@ def rule_add(ctx: Ctx):
     ctx.require(len(params) >= 4, "R-C13-3", "Continuum.add(self, annotator, segment, annotation) expected")
     p_ann, p_seg, p_lab = params[1], params[2], params[3]
     cfg = CFG(f.node)
+    check_annotator_key(ctx, "R-C13-3")
     # (a) zero-duration guard
     guards = []
     for n in walk_no_nested(f.node):
@@ -764,48 +799,11 @@ def rule_reset_bounds(ctx: Ctx):
 # supporting accessors (R-SUP)
 # ---------------------------------------------------------------------------------------------
 def rule_accessors(ctx: Ctx):
-    """one-line specifications of the accessors the property observes through"""
-    M = ctx.model
-    specs = {
-        "Continuum.num_units": {"sum((len(units) for units in self._annotations.values()))"},
-        "Continuum.num_annotators": {"len(self._annotations)"},
-        "Continuum.__len__": {"len(self._annotations)"},
-        "Continuum.categories": {"self._categories"},
-        "Continuum.bounds": {"(self.bound_inf, self.bound_sup)"},
-        "Continuum.annotators": {"SortedSet(self._annotations.keys())", "SortedSet(self._annotations)"},
-        "Continuum.__bool__": {"not all((len(annotations) == 0 for annotations in self._annotations.values()))",
-                               "any((len(annotations) > 0 for annotations in self._annotations.values()))",
-                               "self.num_units > 0", "self.num_units != 0"},
-        "Continuum.avg_num_annotations_per_annotator": {"self.num_units / self.num_annotators"},
-    }
-    for qn, accepted in specs.items():
-        f = ctx.fn(qn, "R-SUP")
-        b = body_stmts(f.node)
-        got = None
-        if len(b) == 1 and isinstance(b[0], ast.Return) and b[0].value is not None:
-            v = b[0].value
-            # sum([...]) and sum((...)) are the same aggregate
-            if isinstance(v, ast.Call) and v.args and isinstance(v.args[0], ast.ListComp):
-                import copy as _c
-                v = _c.deepcopy(v)
-                v.args[0] = ast.GeneratorExp(elt=v.args[0].elt, generators=v.args[0].generators)
-            got = canon(quant_norm(v))
-            sn = f.self_name
-            if sn and sn != "self":
-                got = got.replace(sn + ".", "self.")
-        ok = got is not None and got in {canon(quant_norm(ast.parse(a, mode="eval").body)) for a in accepted}
-        if ok:
-            ctx.ok("R-SUP", f, b[0], f"{qn} == {norm(b[0].value)}", key="accessor")
-        elif got is None:
-            ctx.undecided("R-SUP", f, None, "accessor is not a single return expression", key="accessor")
-        else:
-            ctx.bad("R-SUP", f, b[0], f"{qn} returns `{norm(b[0].value)}`; specification accepts {sorted(accepted)}", key="accessor")
-    it = ctx.fn("Continuum.__iter__", "R-SUP")
-    loops = [n for n in walk_no_nested(it.node) if isinstance(n, ast.For)]
-    ok = len(loops) == 2 and norm(loops[0].iter) == f"{it.self_name}._annotations.items()" and \
-        any(isinstance(n, ast.Yield) and norm(n.value) == f"({norm(loops[0].target.elts[0])}, {norm(loops[1].target)})"
-            for n in ast.walk(loops[1])) and norm(loops[1].iter) == norm(loops[0].target.elts[1])
-    ctx.check(ok, "R-SUP", it, loops[0] if loops else None, "__iter__ yields (annotator, unit) in dictionary-then-set order", key="iter")
+    """one-line specifications of the accessors the property observes through (rules/support.py)"""
+    from .support import check_accessor
+    for qn in ("Continuum.num_units", "Continuum.num_annotators", "Continuum.__len__", "Continuum.categories", "Continuum.bounds", "Continuum.annotators",
+               "Continuum.__bool__", "Continuum.avg_num_annotations_per_annotator", "Continuum.__iter__", "Continuum.iter_annotator"):
+        check_accessor(ctx, qn)
 
 
 def run(ctx: Ctx):
